@@ -389,6 +389,19 @@ func runC14Restart(c *c14Case, st *stats, idx int, scratch string) {
 	dm := srv.VerifDatasetManager()
 	var live []c14Meta
 	snapshotAt := -1
+	deletedParts := map[string]string{} // partition id -> dataset id, for datasets whose deletion was acknowledged
+	// "its partitions stop serving": no raft group of a deleted dataset's partition is attached to the node's transport
+	stillServing := func(sv *anndb.Server, when string) bool {
+		time.Sleep(300 * time.Millisecond) // the allocator loop has worked off what the catalogue queued
+		for _, gid := range sv.VerifZeroGroup().VerifTransport().VerifGroupIds() {
+			id := uuid.UUID(gid).String()
+			if ds, gone := deletedParts[id]; gone {
+				fail(fmt.Sprintf("%s: the node runs a raft group for partition %s of dataset %s, whose deletion was acknowledged (%d deleted partitions in all)", when, id, ds, len(deletedParts)), "deleted-dataset-still-serving")
+				return true
+			}
+		}
+		return false
+	}
 	for _, op := range c.Script {
 		switch op.Kind {
 		case "create":
@@ -412,6 +425,9 @@ func runC14Restart(c *c14Case, st *stats, idx int, scratch string) {
 				return
 			}
 			c.Log = append(c.Log, c14Change{Kind: "delete", Ds: live[k].Id})
+			for _, p := range live[k].Parts {
+				deletedParts[p.Id] = live[k].Id
+			}
 			live = append(live[:k], live[k+1:]...)
 		case "snapshot":
 			time.Sleep(20 * time.Millisecond)
@@ -432,6 +448,10 @@ func runC14Restart(c *c14Case, st *stats, idx int, scratch string) {
 	c.PriorLen = 0
 	time.Sleep(30 * time.Millisecond) // let the allocator load the partitions' groups
 	c.Full = listServer(srv)
+	if stillServing(srv, "before the stop") {
+		srv.Stop()
+		return
+	}
 	srv.Stop()
 	for round := 1; round <= 2; round++ {
 		srv2, err := startServer(dir, port)
@@ -444,7 +464,11 @@ func runC14Restart(c *c14Case, st *stats, idx int, scratch string) {
 		}
 		after := listServer(srv2)
 		c.Restored = after
+		bad := stillServing(srv2, fmt.Sprintf("after restart %d", round))
 		srv2.Stop()
+		if bad {
+			return
+		}
 		if fmt.Sprint(c14Canon(after)) != fmt.Sprint(c14Canon(c.Full)) {
 			fail(fmt.Sprintf("after restart %d the catalogue lists %d datasets, before the stop it listed %d (snapshot stored: %v)", round, len(after), len(c.Full), snapshotAt >= 0), "restart-catalogue-differs")
 			return
@@ -545,6 +569,9 @@ func runC14(a *args) error {
 		if a.tier == "thorough" {
 			maxLen, restarts = 40, 12
 		}
+		// a dataset with many partitions deleted right after its creation (a restart then replays both entries back to
+		// back, before the allocator has loaded anything): its partitions must not be served afterwards
+		cases = append(cases, c14Case{Mode: "restart", Script: []c14Op{{Kind: "create", Dim: 2, Parts: 8}, {Kind: "delete", Which: 0}, {Kind: "create", Dim: 3, Parts: 2}}})
 		for i := 0; i < restarts; i++ {
 			cases = append(cases, c14Case{Mode: "restart", Script: genC14Script(r.fork(), i%3 != 2)})
 		}
